@@ -181,8 +181,11 @@ class ABNF:
         if self.opcode not in ABNF.OPCODES:
             raise WebSocketProtocolException("Invalid opcode %r", self.opcode)
 
-        if self.opcode == ABNF.OPCODE_PING and not self.fin:
-            raise WebSocketProtocolException("Invalid ping frame.")
+        if self.opcode in (ABNF.OPCODE_CLOSE, ABNF.OPCODE_PING, ABNF.OPCODE_PONG):
+            if not self.fin:
+                raise WebSocketProtocolException("Fragmented control frame.")
+            if len(self.data) >= 126:
+                raise WebSocketProtocolException("Control frame is too long.")
 
         if self.opcode == ABNF.OPCODE_CLOSE:
             l = len(self.data)
